@@ -34,6 +34,9 @@ class Recorder:
         self.events = []
         self.ids = {}
         self.next_id = 0
+        # fault injection: ("op", k) fails the k-th binary operation, ("simplify", k) the k-th simplify
+        self.fail = None
+        self.count = {"op": 0, "simplify": 0}
 
     def _id(self, obj):
         k = id(obj)
@@ -56,6 +59,11 @@ class Recorder:
         class RecPath(real.Path):
             def simplify(self, **kw):
                 before = snapshot(self)
+                k = rec.count["simplify"]
+                rec.count["simplify"] += 1
+                if rec.fail == ("simplify", k):
+                    rec.log("simplify", pid=rec._id(self), before=before, after=None, kw=dict(kw), error="PathOpsError", injected=True)
+                    raise real.PathOpsError("injected failure")
                 try:
                     r = super().simplify(**kw)
                 except real.PathOpsError:
@@ -113,6 +121,11 @@ class Recorder:
 
         def rec_op(one, two, op, **kw):
             a, b = snapshot(one), snapshot(two)
+            k = rec.count["op"]
+            rec.count["op"] += 1
+            if rec.fail == ("op", k):
+                rec.log("op", op=int(op), a=a, b=b, aid=rec._id(one), bid=rec._id(two), result=None, kw=dict(kw), error="PathOpsError", injected=True)
+                raise real.PathOpsError("injected failure")
             try:
                 r = real.op(one, two, op, **kw)
             except real.PathOpsError:
